@@ -493,6 +493,21 @@ func genDkgLib(rng *hx.Rng, tier string, w *hx.Writer, prop string) error {
 				return d, desc, true
 			}}
 		}},
+		{"wrong-index-zero", func(s *dkgSess, b int) dkgHooks {
+			// member 0's share (index 0, which a decoder may take for "not set") handed to the others
+			return dkgHooks{deal: func(i, j int) (*dkg.Deal, *edealDesc, bool) {
+				if j != b {
+					return nil, nil, true
+				}
+				p := s.dealing(b).honestPlain(i)
+				if i != 0 {
+					p.idx = 0
+					p.share = refEval(s.coeffs[b], 0, BnQ)
+				}
+				d, desc := s.byzDeal(b, i, p)
+				return d, desc, true
+			}}
+		}},
 		{"silent-dealer", func(s *dkgSess, b int) dkgHooks {
 			return dkgHooks{deal: func(i, j int) (*dkg.Deal, *edealDesc, bool) { return nil, nil, j != b }}
 		}},
